@@ -112,9 +112,14 @@ def gen_out():
     for kw in encs[0].keywords:
         if kw.arg == 'errors' and isinstance(kw.value, ast.Constant): drv_errors = kw.value.value
     # takeMsg: the label tag must be added before _truncateMsg (adding it resets msg._str)
-    tk = find_func(irclib, 'takeMsg', cls='Irc')
+    # (takeMsg proper, or the helper holding one round of it since fix ef8529c)
+    tks = [find_func(irclib, 'takeMsg', cls='Irc')]
+    try:
+        tks.append(find_func(irclib, '_takeMsg', cls='Irc'))
+    except ExtractionError:
+        pass
     label_line = None; trunc_line = None
-    for n in ast.walk(tk):
+    for n in [x for t_ in tks for x in ast.walk(t_)]:
         if isinstance(n, ast.Call) and isinstance(n.func, ast.Attribute) and n.func.attr == '_truncateMsg':
             trunc_line = n.lineno
         if isinstance(n, ast.Assign) and any(isinstance(t, ast.Attribute) and t.attr == '_str' for t in n.targets):
